@@ -7,7 +7,7 @@ sys.dont_write_bytecode = True
 from sa import report, srcmodel
 from selftest import alpha
 KIND = os.environ.get('TWIN', 'rename')
-src = {'rename': alpha.rename_locals, 'invert': alpha.invert_ifs, 'guard': alpha.guard_clauses}[KIND](srcmodel.load_sources())
+src = {'rename': alpha.rename_locals, 'invert': alpha.invert_ifs, 'guard': alpha.guard_clauses, 'flip': alpha.flip_comparisons}[KIND](srcmodel.load_sources())
 for k, v in src.items():
     compile(v, k, 'exec')
 props = sys.argv[1:] or ['C%02d' % i for i in range(1, 21)]
